@@ -573,4 +573,47 @@ class PoolScn:
                 "ops": [op.get("op") for op in c.get("ops") or []], "clients": c.get("clients"), "peak": c.get("peak")}
 
 
-SCN = {"orch": Orch, "kc": KCScn, "eval": EvalScn, "compile": CompileScn, "pool": PoolScn}
+class LexScn:
+    """aspects: tokens (token stream of the default channel: kinds and texts), lexerr (a token
+    recognition error is reported iff the model finds a position where no token rule matches),
+    crash (the lexer panicked)."""
+
+    @staticmethod
+    def compare(c, o):
+        issues = []
+        def add(aspect, detail):
+            issues.append({"aspect": aspect, "kind": "impl-vs-spec", "method": "lexer",
+                           "detail": "lexer on %r: %s" % ((c.get("text") or "")[:200], detail)})
+        if c.get("panic"):
+            add("crash", "the lexer panicked: %s" % c["panic"])
+            return issues
+        it = [tuple(t) for t in c.get("toks") or []]
+        mt = [tuple(t) for t in (o or {}).get("toks") or []]
+        ierr = bool(c.get("errs"))
+        if ierr != (not o.get("ok")):
+            add("lexerr", "the lexer %s, the grammar's token rules %s"
+                % ("reports %s" % c["errs"][:2] if ierr else "reports no error",
+                   "match the whole text" if o.get("ok") else "match nothing after %d tokens" % len(mt)))
+        elif (it != mt) if not ierr else (it[:len(mt)] != mt):
+            k = next((j for j in range(min(len(it), len(mt))) if it[j] != mt[j]), min(len(it), len(mt)))
+            add("tokens", "token %d is %s, the grammar's token rules (longest match, first rule) give %s"
+                % (k, it[k] if k < len(it) else "missing", mt[k] if k < len(mt) else "nothing"))
+        return issues
+
+    @staticmethod
+    def classify(c):
+        return c.get("text", ""), bool(c.get("toks")) and not c.get("errs")
+
+    @staticmethod
+    def histo(c):
+        yield "kind:%s" % c.get("kind")
+        yield "lexerr:%s" % ("yes" if c.get("errs") else "no")
+        for t in c.get("toks") or []:
+            yield "tok:%s" % t[0]
+
+    @staticmethod
+    def sample(c, o):
+        return {"text": (c.get("text") or "")[:200], "tokens": [t[0] for t in c.get("toks") or []][:20]}
+
+
+SCN = {"orch": Orch, "kc": KCScn, "eval": EvalScn, "compile": CompileScn, "pool": PoolScn, "lex": LexScn}
